@@ -1196,7 +1196,19 @@ def CONSTRUCTOR_MODELS():
         (np, "ones", _m_ones),
         (np, "array", _m_array),
         (np, "asarray", _m_asarray),
+        # numpy's own isclose/allclose call isfinite, which object arrays of proxies do not support
+        (np, "isclose", _lazy_shim("_isclose")),
+        (np, "allclose", _lazy_shim("_allclose")),
     ]
+
+
+def _lazy_shim(name):
+    def f(*a, **k):
+        from . import shims
+
+        return getattr(shims, name)(*a, **k)
+
+    return f
 
 
 _FM = None
